@@ -23,9 +23,9 @@ Proof.
   - intros H. exists k. split; [assumption|apply streq_refl].
 Qed.
 
-Lemma str_nodup_spec l : str_nodup l = true <-> NoDup l.
+Lemma j_str_nodup_spec l : j_str_nodup l = true <-> NoDup l.
 Proof.
-  induction l as [|k r IH]; cbn [str_nodup].
+  induction l as [|k r IH]; cbn [j_str_nodup].
   - split; [constructor|reflexivity].
   - rewrite andb_true_iff, negb_true_iff, IH. split.
     + intros [H1 H2]. constructor; [|assumption]. intros Hin. apply existsb_streq in Hin. congruence.
